@@ -586,7 +586,7 @@ theorem stepV2 (f : Nat) (H2 : V2 c N M f) (H3 : V3 c N M f) : V2 c N M (f + 1) 
       have h3 := H3 (pfx ++ "On" ++ objName c.s (.object i)) pfx (.object i) (.object i) isub e hd hs (by omega) hsub
         ⟨i, rfl, hi⟩
       simp only [hfil, h3, hrest, pure, Except.pure, renderType_novariants]
-      simp [variantOf, hm, List.flatMap_cons, hitems, inlItem]
+      simp [variantOf, hm, List.flatMap_cons, hitems, inlItem, pure, Except.pure]
     · obtain ⟨hfil, hitems⟩ := hno hm
       simp only [hfil, hrest, pure, Except.pure]
       simp [variantOf, hm, List.flatMap_cons, hitems]
